@@ -253,7 +253,7 @@ type c07case struct {
 	ZeroWrite bool   `json:"zero_length_writes"`
 }
 
-var c07Sizes = []int{0, 1, 2, 100, 4095, 4096, 4097, 8192, 65535, 70000, 300000}
+var c07Sizes = []int{0, 1, 2, 100, 4095, 4096, 4097, 8192, 65535, 70000, 262144, 262145, 300000, 600000}
 
 func isEOS(err error) bool {
 	if err == nil {
@@ -284,7 +284,10 @@ func pump(c net.Conn, data []byte, r *rand.Rand, maxWrite int, zero bool) error 
 			continue
 		}
 		n := 1 + r.Intn(maxWrite)
-		if r.Intn(4) == 0 {
+		switch {
+		case maxWrite >= 1<<20 && r.Intn(2) == 0:
+			n = maxWrite // one huge Write: a single WebSocket message of everything that is left
+		case r.Intn(4) == 0:
 			n = 1 + r.Intn(8)
 		}
 		if n > len(rest) {
@@ -507,7 +510,7 @@ func runC07(sh *core.Shard, a props.Args) {
 		c := c07case{Path: p.name, Seed: seed,
 			LenAB: c07Sizes[r.Intn(len(c07Sizes))], LenBA: c07Sizes[r.Intn(len(c07Sizes))],
 			Closer:   []string{"near", "far"}[r.Intn(2)],
-			MaxWrite: []int{1, 7, 512, 4096, 5000, 70000}[r.Intn(6)],
+			MaxWrite: []int{1, 7, 512, 4096, 5000, 70000, 1 << 20, 1 << 20}[r.Intn(8)],
 			MaxRead:  []int{1, 3, 100, 4096, 65536}[r.Intn(5)], ZeroWrite: r.Intn(3) == 0}
 		if a.Thorough() && r.Intn(20) == 0 {
 			c.LenAB = 1 << 22
@@ -582,7 +585,7 @@ func runC07(sh *core.Shard, a props.Args) {
 func init() {
 	props.Register(&props.Prop{
 		ID: "C07", Level: "exploration", Race: true, Parallel: 8,
-		Rule: "a 2-node real cluster and six tunnel paths: client.Dialer -> node -> upstream listener; the same across two nodes; plain TCP -> forward.Forwarder -> node -> node -> listener; Dialer -> node -> node -> client.Forwarder -> plain TCP; Dialer -> node -> agent/tcpproxy -> plain TCP; and a bare pkg/websocket.Conn pair. Per connection two seeded random byte streams (0 B ... 300 KB, thorough 4 MiB) are written concurrently in both directions with seeded chunk sizes (1 B, <=8 B, up to 70 000 B, optional zero-length writes = empty WebSocket messages) and read with seeded buffer sizes (1 B ... 64 KiB); each reader compares incrementally with what the other end wrote (loss, duplication, reordering, corruption, short writes all fail). A seeded end closes once it has read everything addressed to it and finished writing; the other end must receive every byte and then end-of-stream (EOF / closed, not a timeout) within the watchdog. After every batch of 20 connections the nodes' proxy in-flight gauges must be 0 and the goroutine count back to the post-warm-up level (+4 slack). Non-trivial = both directions carried data; distinct = hash of (path, sizes, closer, chunking).",
+		Rule: "a 2-node real cluster and six tunnel paths: client.Dialer -> node -> upstream listener; the same across two nodes; plain TCP -> forward.Forwarder -> node -> node -> listener; Dialer -> node -> node -> client.Forwarder -> plain TCP; Dialer -> node -> agent/tcpproxy -> plain TCP; and a bare pkg/websocket.Conn pair. Per connection two seeded random byte streams (0 B ... 300 KB, thorough 4 MiB) are written concurrently in both directions with seeded chunk sizes (1 B, <=8 B, up to 70 000 B, or one single Write of the whole stream (up to 600 KB in one WebSocket message), optional zero-length writes = empty WebSocket messages) and read with seeded buffer sizes (1 B ... 64 KiB); each reader compares incrementally with what the other end wrote (loss, duplication, reordering, corruption, short writes all fail). A seeded end closes once it has read everything addressed to it and finished writing; the other end must receive every byte and then end-of-stream (EOF / closed, not a timeout) within the watchdog. After every batch of 20 connections the nodes' proxy in-flight gauges must be 0 and the goroutine count back to the post-warm-up level (+4 slack). Non-trivial = both directions carried data; distinct = hash of (path, sizes, closer, chunking).",
 		Assumptions: []string{
 			"connections within a shard are sequential (concurrent tunnels over one session are exercised by C20 and C01)",
 			"the closing end closes only after it has drained its direction (WebSocket tunnels have no half-close)",
